@@ -34,6 +34,14 @@ MODELS["const:numpy.inf"] = const_inf
 MODELS["const:numpy.nan"] = const_nan
 
 
+@model("jax.numpy.finfo", "numpy.finfo")
+def _finfo(ip, dtype=None):
+    """machine constants of a float type: positive reals with tiny < eps < 1 < max (their values are not needed)"""
+    eps, tiny, mx = z3.Real("finfo_eps"), z3.Real("finfo_tiny"), z3.Real("finfo_max")
+    ip.ctx.assume(z3.And(tiny > 0, tiny < eps, eps < 1, mx > 1))
+    return PyObj("finfo", eps=eps, tiny=tiny, max=mx, min=-mx, smallest_normal=tiny)
+
+
 @model("jax.numpy.all", "numpy.all")
 def _jnp_all(ip, x, *a, **k):
     if isinstance(x, bool) or (is_z3(x) and z3.is_bool(x)):
@@ -290,6 +298,12 @@ def _array(ip, x, *a, **k):
         ip.ctx.assume(z3.Implies(d == DTYPE_OF(x), r == x))
         return r
     return x  # python scalars / concrete dtypes: value-preserving conversion (A-REAL)
+
+
+@model("jax.numpy.promote_types", "numpy.promote_types")
+def _promote_types(ip, a, b):
+    """T: the promoted type of two dtypes is some dtype (uninterpreted; float constants of it stay symbolic positive reals)"""
+    return ip.uf("promote_types", ip.to_U(a), ip.to_U(b))
 
 
 @model("jax.numpy.result_type", "numpy.result_type")
@@ -603,6 +617,7 @@ def _where_vec(ip, cond, x=None, y=None):
 MODELS["jax.numpy.where"] = _where_vec
 MODELS["numpy.where"] = _where_vec
 
+MODELS["jax.numpy.log1p"] = MODELS["numpy.log1p"] = lambda ip, x: MODELS["jax.numpy.log"](ip, ip.binop("Add", 1, x))  # log1p(x) = log(1 + x) over the reals
 _prev_log = MODELS["jax.numpy.log"]
 MODELS["jax.numpy.log"] = lambda ip, x: CVec([_prev_log(ip, e) for e in x]) if isinstance(x, CVec) else _prev_log(ip, x)
 
